@@ -69,8 +69,14 @@ class UserFlaky(Exception):
         self.extra = extra
 
 
+class UserCaret(ValueError):
+    """a parser-style message: several lines, one of them only a column pointer, one of them blank"""
+    def __init__(self, msg):
+        super().__init__(msg if '\n' in str(msg) else f'{msg}\n      ^~~\n\n>>after the pointer of {msg}')
+
+
 USER = {c.__name__: c for c in (UserErr, UserValueErr, UserKeyErr, UserKwOnly, UserArity,
-                                UserRewrite, UserBase, UserFlaky)}
+                                UserRewrite, UserBase, UserFlaky, UserCaret)}
 
 
 def _twin():
